@@ -3,7 +3,7 @@
 //!
 //! usage: fd_probe list                       -> "<id> <name> <number of parameter values>" per scenario
 //!                                               (plan scenario field = id + 1000 * parameter)
-//!        fd_probe batch <plan> <scratch>     -> plan lines: `<scenario id> <case id> <scope> <nr> <k> <ret> [<count> [<scope2> <nr2> <k2> <ret2>]]`
+//!        fd_probe batch <plan> <scratch>     -> plan lines: `<scenario id> <case id> <scope> <nr> <k> <ret> [<count> [<scope2> <nr2> <k2> <ret2> [<low mask>]]]`
 //!                                               (scope -1: no injection)
 //!
 //! Per case (see `Cx::run`):
@@ -26,7 +26,10 @@ use std::io::Write as _;
 use std::os::fd::{AsRawFd as _, IntoRawFd as _};
 use std::time::Duration;
 
-use rusl::platform::{Fd, OpenFlags};
+use rusl::platform::{
+    AddressFamily, ControlMessageSend, Fd, IoSlice, IoSliceMut, MsgHdrBorrow, OpenFlags, SocketAddressUnix,
+    SocketFlags, SocketOptions, SocketType,
+};
 use tiny_std::fs::{self as tfs, Directory, File, FileType, OpenOptions};
 use tiny_std::io::{Read as _, Write as _};
 use tiny_std::linux::epoll::{EpollDriver, EpollEvent, EpollEventMask, EpollTimeout};
@@ -42,6 +45,9 @@ extern "C" {
     fn readdir(d: *mut u8) -> *const u8;
     fn dirfd(d: *mut u8) -> i32;
     fn closedir(d: *mut u8) -> i32;
+    fn socketpair(domain: i32, ty: i32, proto: i32, sv: *mut i32) -> i32;
+    fn dup2(old: i32, new: i32) -> i32;
+    fn fcntl(fd: i32, cmd: i32, arg: i32) -> i32;
 }
 
 /// Open descriptors of this process (without the one used for listing). Only used OUTSIDE the window,
@@ -113,12 +119,15 @@ struct Cx {
     case: i64,
     inj: Option<Inj>,
     inj2: Option<Inj>,
+    /// bit i set: descriptor i (0, 1, 2) is closed for the duration of the window
+    low: i64,
+    saved: [i32; 3],
     serial: u64,
 }
 
-type NoRaw<T> = fn(&T) -> [i32; 4];
-fn no_raw<T>(_: &T) -> [i32; 4] {
-    [-1; 4]
+type NoRaw<T> = fn(&T) -> [i32; 8];
+fn no_raw<T>(_: &T) -> [i32; 8] {
+    [-1; 8]
 }
 
 impl Cx {
@@ -128,8 +137,17 @@ impl Cx {
         &mut self,
         consume: &[i32],
         op: impl FnOnce() -> Result<T, E>,
-        raw: impl FnOnce(&T) -> [i32; 4],
+        raw: impl FnOnce(&T) -> [i32; 8],
     ) -> bool {
+        // "low descriptors free" mode: the process runs like a daemon with stdin/stdout/stderr closed, so
+        // that what the operation opens lands on 0..=2 (markers are system calls, they need no descriptor)
+        for i in 0..3 {
+            if self.low & (1 << i) != 0 {
+                unsafe {
+                    close(i);
+                }
+            }
+        }
         let before = list_fds();
         marker::snap_fd(1);
         for c in consume {
@@ -170,6 +188,13 @@ impl Cx {
             if !before.contains(&fd) {
                 unsafe {
                     close(fd);
+                }
+            }
+        }
+        for i in 0..3 {
+            if self.low & (1 << i) != 0 {
+                unsafe {
+                    dup2(self.saved[i as usize], i);
                 }
             }
         }
@@ -958,6 +983,146 @@ fn s_fs_read_size(cx: &mut Cx) {
     cx.run(&[], || tfs::read(&p), no_raw);
 }
 
+// ---------------------------------------------------------------- descriptor passing (SCM_RIGHTS)
+
+#[repr(align(8))]
+struct Aligned([u8; 256]);
+
+/// What `control_messages()` reports is the hand-over: exactly those descriptors are closed by the probe.
+fn reported_fds(hdr: &MsgHdrBorrow<'_>) -> [i32; 8] {
+    // the iterator borrows the header for its own lifetime parameter
+    let hdr: &MsgHdrBorrow<'_> = unsafe { &*core::ptr::from_ref(hdr) };
+    let mut got = [-1; 8];
+    let mut i = 0;
+    for m in hdr.control_messages() {
+        match m {
+            ControlMessageSend::ScmRights(fds) => {
+                for f in fds {
+                    if i < got.len() {
+                        got[i] = f.value();
+                        i += 1;
+                    }
+                }
+            }
+        }
+    }
+    got
+}
+
+/// sendmsg(ScmRights of n descriptors) over a socketpair, recvmsg with a control buffer of a given size
+/// (param = n index * 14 + size index; n index 7 = a control message carrying zero descriptors).
+/// Sizes walk below / at / above CMSG_LEN = 16+4n and CMSG_SPACE, including sizes that truncate the batch.
+fn s_recvmsg_scm_rights(cx: &mut Cx) {
+    const SIZES: [usize; 14] = [0, 8, 16, 19, 20, 24, 28, 30, 32, 36, 40, 44, 48, 128];
+    let nidx = ((cx.param / 14) % 8) as usize;
+    let size = SIZES[(cx.param % 14) as usize];
+    let n = if nidx == 7 { 0 } else { nidx };
+    let mut sv = [-1i32; 2];
+    if unsafe { socketpair(1, 1 | 0o2_000_000, 0, sv.as_mut_ptr()) } != 0 {
+        cx.skip(5);
+        return;
+    }
+    let sent: Vec<i32> = (0..n).map(|_| devnull_fd()).collect();
+    let sent_fds: Vec<Fd> = sent.iter().map(|f| fd_of(*f)).collect();
+    let mut ctrl = Aligned([0; 256]);
+    let mut data = [0u8; 64];
+    let (tx, rx) = (fd_of(sv[0]), fd_of(sv[1]));
+    cx.run(
+        &[],
+        || {
+            let io_out = [IoSlice::new(b"Hello")];
+            let cm = if n > 0 || nidx == 7 {
+                Some(ControlMessageSend::ScmRights(&sent_fds))
+            } else {
+                None
+            };
+            let snd = MsgHdrBorrow::create_send(None, &io_out, cm);
+            rusl::network::sendmsg(tx, &snd, 0)?;
+            let mut io = [IoSliceMut::new(&mut data)];
+            let cbuf = if size > 0 { Some(&mut ctrl.0[..size]) } else { None };
+            let mut hdr = MsgHdrBorrow::create_recv(&mut io, cbuf);
+            rusl::network::recvmsg(rx, &mut hdr, 0)?;
+            Ok::<_, rusl::Error>(reported_fds(&hdr))
+        },
+        |g| *g,
+    );
+    unsafe {
+        close(sv[0]);
+        close(sv[1]);
+        for f in sent {
+            close(f);
+        }
+    }
+}
+
+/// the same over sockets made by rusl inside the window: socket/bind/listen/connect/accept + two batches
+fn s_scm_rights_stream(cx: &mut Cx) {
+    let d = cx.fresh_dir();
+    let path = us(&format!("{d}/s"));
+    let sent = [devnull_fd(), devnull_fd(), devnull_fd()];
+    let sent_fds = [fd_of(sent[0]), fd_of(sent[1]), fd_of(sent[2])];
+    let mut ctrl = Aligned([0; 256]);
+    let mut ctrl2 = Aligned([0; 256]);
+    let mut data = [0u8; 64];
+    let mut data2 = [0u8; 64];
+    cx.run(
+        &[],
+        || {
+            use rusl::network as net;
+            let mut held = [-1i32; 8];
+            let r = (|| {
+                let opts = SocketOptions::new(SocketType::SOCK_STREAM, SocketFlags::SOCK_CLOEXEC);
+                let srv = net::socket(AddressFamily::AF_UNIX, opts, 0)?;
+                held[0] = srv.value();
+                let addr = SocketAddressUnix::try_from_unix(&path)?;
+                net::bind_unix(srv, &addr)?;
+                net::listen(srv, fd_of(4))?;
+                let cl = net::socket(AddressFamily::AF_UNIX, opts, 0)?;
+                held[1] = cl.value();
+                net::connect_unix(cl, &addr)?;
+                let acc = net::accept_unix(srv, SocketFlags::SOCK_CLOEXEC)?.0;
+                held[2] = acc.value();
+                let io_out = [IoSlice::new(b"Hello")];
+                let snd = MsgHdrBorrow::create_send(None, &io_out, Some(ControlMessageSend::ScmRights(&sent_fds[..1])));
+                net::sendmsg(cl, &snd, 0)?;
+                let snd2 = MsgHdrBorrow::create_send(None, &io_out, Some(ControlMessageSend::ScmRights(&sent_fds[1..])));
+                net::sendmsg(cl, &snd2, 0)?;
+                // first batch with an exactly sized control buffer (CMSG_LEN(4) = 20), second with room to spare
+                let mut io = [IoSliceMut::new(&mut data[..5])];
+                let mut hdr = MsgHdrBorrow::create_recv(&mut io, Some(&mut ctrl.0[..20]));
+                net::recvmsg(acc, &mut hdr, 0)?;
+                let a = reported_fds(&hdr);
+                held[3] = a[0];
+                let mut io2 = [IoSliceMut::new(&mut data2)];
+                let mut hdr2 = MsgHdrBorrow::create_recv(&mut io2, Some(&mut ctrl2.0[..64]));
+                net::recvmsg(acc, &mut hdr2, 0)?;
+                let b = reported_fds(&hdr2);
+                held[4] = b[0];
+                held[5] = b[1];
+                Ok::<_, rusl::Error>(())
+            })();
+            // raw rusl descriptors have no owner: whatever was obtained so far is the caller's to close
+            match r {
+                Ok(()) => Ok(held),
+                Err(e) => {
+                    for fd in held {
+                        if fd >= 0 {
+                            let _ = rusl::unistd::close(fd_of(fd));
+                        }
+                    }
+                    Err(e)
+                }
+            }
+        },
+        |h| *h,
+    );
+    unsafe {
+        for f in sent {
+            close(f);
+        }
+    }
+}
+
 // ---------------------------------------------------------------- epoll, passwd, pty, io_uring, pipes
 
 fn s_epoll(cx: &mut Cx) {
@@ -999,7 +1164,7 @@ fn s_openpty(cx: &mut Cx) {
     cx.run(
         &[],
         || tiny_std::unix::misc::openpty::openpty(None, None, None),
-        |h| [h.master.value(), h.slave.value(), -1, -1],
+        |h| [h.master.value(), h.slave.value(), -1, -1, -1, -1, -1, -1],
     );
 }
 
@@ -1029,7 +1194,7 @@ fn s_openpty_attrs(cx: &mut Cx) {
     cx.run(
         &[],
         || tiny_std::unix::misc::openpty::openpty(None, Some(&tio), Some(&ws)),
-        |h| [h.master.value(), h.slave.value(), -1, -1],
+        |h| [h.master.value(), h.slave.value(), -1, -1, -1, -1, -1, -1],
     );
 }
 
@@ -1039,7 +1204,7 @@ fn s_openpty_bad_name(cx: &mut Cx) {
     cx.run(
         &[],
         || tiny_std::unix::misc::openpty::openpty(Some(&name), None, None),
-        |h| [h.master.value(), h.slave.value(), -1, -1],
+        |h| [h.master.value(), h.slave.value(), -1, -1, -1, -1, -1, -1],
     );
 }
 
@@ -1060,14 +1225,14 @@ fn s_io_uring_bad_entries(cx: &mut Cx) {
 }
 
 fn s_rusl_pipe(cx: &mut Cx) {
-    cx.run(&[], rusl::unistd::pipe, |p| [p.in_pipe.value(), p.out_pipe.value(), -1, -1]);
+    cx.run(&[], rusl::unistd::pipe, |p| [p.in_pipe.value(), p.out_pipe.value(), -1, -1, -1, -1, -1, -1]);
 }
 
 fn s_rusl_pipe2(cx: &mut Cx) {
     cx.run(
         &[],
         || rusl::unistd::pipe2(OpenFlags::O_CLOEXEC | OpenFlags::O_NONBLOCK),
-        |p| [p.in_pipe.value(), p.out_pipe.value(), -1, -1],
+        |p| [p.in_pipe.value(), p.out_pipe.value(), -1, -1, -1, -1, -1, -1],
     );
 }
 
@@ -1078,7 +1243,7 @@ fn s_rusl_open_close(cx: &mut Cx) {
     cx.run(
         &[],
         || rusl::unistd::open(&p, OpenFlags::O_RDONLY | OpenFlags::O_CLOEXEC),
-        |f| [f.value(), -1, -1, -1],
+        |f| [f.value(), -1, -1, -1, -1, -1, -1, -1],
     );
 }
 
@@ -1165,6 +1330,8 @@ const SCENARIOS: &[Scn] = &[
     ("rusl_open", 1, s_rusl_open_close),
     ("spawn_combo", 64, s_spawn_combo),
     ("fs_read_size", 8, s_fs_read_size),
+    ("recvmsg_scm_rights", 112, s_recvmsg_scm_rights),
+    ("scm_rights_stream", 1, s_scm_rights_stream),
 ];
 
 fn main() {
@@ -1187,6 +1354,9 @@ fn main() {
                 case: 0,
                 inj: None,
                 inj2: None,
+                low: 0,
+                // copies of the standard streams above everything the scenarios use
+                saved: [0, 1, 2].map(|i| unsafe { fcntl(i, 1030, 900) }),
                 serial: 0,
             };
             // warm std's lazily initialised bits before any window
@@ -1211,6 +1381,7 @@ fn main() {
                 } else {
                     None
                 };
+                cx.low = f.get(11).copied().unwrap_or(0) & 7;
                 let Some((_, _, func)) = SCENARIOS.get((f[0] % 1000) as usize) else { continue };
                 func(&mut cx);
                 ran += 1;
